@@ -2,6 +2,7 @@ package checks
 
 import (
 	"bytes"
+	"context"
 	"fmt"
 	"os"
 	"os/exec"
@@ -156,14 +157,35 @@ func raceTier(e *core.Env, reps int, prop, filter string) {
 		e.EngineError("race binary missing: %v", err)
 		return
 	}
-	cmd := exec.Command(bin, "racerun", strconv.Itoa(reps), filter)
+	// the free runs have their own per-run watchdogs; the whole tier is bounded by ten
+	// minutes (a capped tier is reported as such, not as an error), and it keeps the
+	// worker's heartbeat alive while it waits
+	ctx, cancel := context.WithTimeout(context.Background(), 10*time.Minute)
+	defer cancel()
+	stopBeat := make(chan struct{})
+	defer close(stopBeat)
+	go func() {
+		for {
+			select {
+			case <-stopBeat:
+				return
+			case <-time.After(5 * time.Second):
+				e.Beat()
+			}
+		}
+	}()
+	cmd := exec.CommandContext(ctx, bin, "racerun", strconv.Itoa(reps), filter)
 	cmd.Env = append(os.Environ(), "GORACE=halt_on_error=0 exitcode=0", "GOMAXPROCS=8")
 	var stderr bytes.Buffer
 	cmd.Stderr = &stderr
 	cmd.Stdout = &stderr
 	if err := cmd.Run(); err != nil {
-		e.EngineError("race run failed: %v\n%s", err, tailStr(stderr.String(), 30))
-		return
+		if ctx.Err() == nil {
+			e.EngineError("race run failed: %v\n%s", err, tailStr(stderr.String(), 30))
+			return
+		}
+		e.Capped()
+		e.Note("race tier (%s) stopped after ten minutes: %d scenarios finished; reports so far are evaluated", filter, strings.Count(stderr.String(), "RACERUN-SCENARIO"))
 	}
 	out := stderr.String()
 	if hm := regexp.MustCompile(`RACERUN-HANG scenario=(\S+)`).FindStringSubmatch(out); hm != nil {
@@ -172,11 +194,14 @@ func raceTier(e *core.Env, reps int, prop, filter string) {
 		return
 	}
 	m := regexp.MustCompile(`RACERUN-DONE executions=(\d+)`).FindStringSubmatch(out)
-	if m == nil {
+	if m == nil && ctx.Err() == nil {
 		e.EngineError("race run did not finish:\n%s", tailStr(out, 30))
 		return
 	}
-	n, _ := strconv.Atoi(m[1])
+	n := strings.Count(out, "RACERUN-SCENARIO") * reps
+	if m != nil {
+		n, _ = strconv.Atoi(m[1])
+	}
 	e.Add("race_detector_executions", n)
 	e.Add("evaluations", n)
 	blocks := strings.Split(out, "WARNING: DATA RACE")
